@@ -344,9 +344,11 @@ func (b *bEnv) call(n *ast.CallExpr) bVal {
 		// a call site it is the abstract size of the callee's object.
 		v := b.Eval(arg(0))
 		return bScalar{b.e.announced(b.state(), v, arg(0), b.callee)}
-	case "pending":
-		// bytes handed to a buffered writer and not flushed yet (ghost counter per writer)
-		return bScalar{Select(b.e.ghostArr(b.state(), "pending"), ConstI(int64(b.e.objectIdentity(b.state(), b.Eval(arg(0)), arg(0)))))}
+	case "pending", "lastword":
+		// ghost counters per object: pending(w), bytes handed to a buffered writer and not flushed yet;
+		// lastword(r), the value the last ReadUint64 on that reader decoded
+		name := exprString(n.Fun)
+		return bScalar{Select(b.e.ghostArr(b.state(), name), ConstI(int64(b.e.objectIdentity(b.state(), b.Eval(arg(0)), arg(0)))))}
 	case "implies":
 		// the consequent is evaluated only when the antecedent is not plainly false (nil guards)
 		c := b.state().norm(b.Term(arg(0)))
